@@ -32,12 +32,13 @@ type HarnessCfg struct {
 	UnbufferedAsOne bool
 	AssertTimeoutMs int
 	MaxPaths        int
+	MaxWallS        int
 }
 
 func defaultCfg() HarnessCfg {
 	return HarnessCfg{
 		MaxSteps: 20_000_000, LoopBudget: 64, MaxConcretize: 64, MaxAlloc: 1 << 20,
-		MaxIteIndex: 96, GoPolicy: "skip", AssertTimeoutMs: 60000, MaxPaths: 200000,
+		MaxIteIndex: 96, GoPolicy: "skip", AssertTimeoutMs: 60000, MaxPaths: 400000, MaxWallS: 900,
 	}
 }
 
@@ -264,7 +265,7 @@ func (g *Engine) Explore(name string, cfg HarnessCfg, workers int, nSamples int,
 					cond.Broadcast()
 					return
 				}
-				if started >= cfg.MaxPaths {
+				if started >= cfg.MaxPaths || time.Since(t0).Seconds() > float64(cfg.MaxWallS) {
 					res.Truncated = true
 					work = nil
 					mu.Unlock()
@@ -273,6 +274,9 @@ func (g *Engine) Explore(name string, cfg HarnessCfg, workers int, nSamples int,
 						return
 					}
 					continue
+				}
+				if g.verbose && started%500 == 0 && started > 0 {
+					fmt.Printf("  ... %s: %d paths started, %d queued, %.0fs\n", name, started, len(work), time.Since(t0).Seconds())
 				}
 				// depth-first: take the most recent prefix
 				p := work[len(work)-1]
